@@ -30,6 +30,7 @@ PROPS = {
         not_yet_proved=["keeps-lemmas for first_token/last_token/next_token/prev_token, token_at_offset, covering_element (compositions of proven primitive requests)"],
     ),
     "C03": dict(
+        extra_modules=["CstModel.Proofs.Walk"],
         runs=runs([("red", "release")],
                   [("red", "release"), ("red", "debug"), ("red", "lasso")]),
         tags=["C03"],
@@ -39,7 +40,7 @@ PROPS = {
              "(kind, node/token, span) and handle identity is checked to be a bijection with tree positions; non-trivial = the case returned at least one "
              "element; distinct = distinct op text",
         assumptions=["the resolved wrappers are re-typings (repr(transparent)); they are the same function in the model and are tied by running every operation through both APIs"],
-        not_yet_proved=["simulation lemma walkNextT/walkNextN (state-threading) = C03.next (pure successor), which lifts preorder_spec to the modelled iterator",
+        not_yet_proved=["simulation for the node-only walk `preorder` (walkNextN); the with-tokens walk is proved (Proofs/Walk: walkNextT_sim, preorderWithTokens_spec)",
                         "closed forms for last_child / next_sibling / prev_sibling (node-only) and for first_token/last_token/next_token/prev_token (tokens_spec)"],
     ),
     "C04": dict(
@@ -61,6 +62,47 @@ PROPS = {
              "checkpoints validly; each use is classified valid / wrap-while-open / invalid by the harness' identity-tracking reference; "
              "non-trivial = at least one *valid* wrap or revert happened; distinct = distinct op text",
         assumptions=["validity of a checkpoint is stated as: the stacks at checkpoint time are prefixes of the current stacks (implied by the ghost-identity definition the harness' reference uses)"],
+        not_yet_proved=[],
+    ),
+    "C11": dict(
+        runs=runs([("tokens", "release"), ("tokens", "debug")],
+                  [("tokens", "release"), ("tokens", "debug"), ("tokens", "lasso"), ("tokens", "lasso-debug")]),
+        rule="cases = two trees built through one cache (one interner) from 12 token forms: 4 static kinds (one with empty, one with multi-byte static text; "
+             "added by text and by kind alone), interned kinds incl. interned tokens whose text equals a static text and the empty interned text; for every "
+             "token: resolved text (external and attached resolver), static_text, text_key; text_eq for ALL ordered pairs within and across the two trees; "
+             "run in a release and in a debug build (debug_assert); non-trivial = a pair over one interner was compared; distinct = distinct op text",
+        assumptions=["both tokens of a comparison come from trees built with the same interner (the documented precondition of text_eq)"],
+        not_yet_proved=[],
+    ),
+    "C13": dict(
+        claimed=False,
+        runs=runs([("queries", "release")], [("queries", "release"), ("queries", "debug")]),
+        rule="cases = every tree with <= 4 (thorough 5) elements over {interned 'a', interned '', 'éb', static ''} incl. empty nodes and zero-length tokens at every "
+             "boundary x every node as starting point x every offset in [start, end] x every range inside [start, end] (exhaustive), on a fresh red tree; "
+             "+ the first offset / range outside the precondition (must panic); + 60 random queries on each of 200 (thorough 2000) random trees; plain and resolved API; "
+             "non-trivial = a query inside the precondition was answered; distinct = distinct op text",
+        assumptions=[],
+        not_yet_proved=[],
+    ),
+    "C14": dict(
+        claimed=False,
+        runs=runs([("replace", "release")], [("replace", "release"), ("replace", "debug"), ("replace", "lasso")]),
+        rule="cases = every tree with <= 4 (thorough 5) elements x every position (root, inner node, leaf node, token; first/middle/last) x 4 (thorough 6) replacements "
+             "(an equal element, an empty one, a larger one, a random one; occasionally one of another kind, which must panic), + a tree whose deduplicated sub-tree "
+             "occurs three times, + random positions of 150 (thorough 1500) random trees; the replacement is built through the same cache; results are compared with "
+             "substitution in the reference tree, heads (lengths/hashes), text, ==/hash for the identity replacement, allocation sharing off the spine; the original "
+             "green tree and the red tree on it are re-dumped afterwards; non-trivial = a same-kind replacement was performed; distinct = distinct op text",
+        assumptions=[],
+        not_yet_proved=[],
+    ),
+    "C19": dict(
+        runs=runs([("fmt", "release")], [("fmt", "release"), ("fmt", "debug"), ("fmt", "lasso")]),
+        rule="cases = for every byte length 0..40 (thorough 0..60): 8 (thorough 12) texts built from 1-4 byte characters in different patterns + 4-byte runs shifted "
+             "by 1-3 bytes, so that every alignment of character boundaries against the abbreviation window [21,25) occurs; texts needing escapes; all trees with "
+             "<= 3 (thorough 4) elements and 200 (thorough 2000) random trees (depth up to 40): display, one-line debug and recursive debug of every element, through the "
+             "external-resolver methods and through Display/Debug/{:#?} of the resolved wrappers; non-trivial = an output was compared with the reference; "
+             "distinct = distinct op text",
+        assumptions=["kind formatting is the user's Debug impl (the harness' kinds print as K<n>); Rust's {:?} escaping of str is undone before comparison"],
         not_yet_proved=[],
     ),
     "C15": dict(
